@@ -1,6 +1,7 @@
 package e5
 
 import (
+	"context"
 	"fmt"
 	"sort"
 	"strconv"
@@ -535,8 +536,99 @@ func runC17Linearizable(w *core.WorkerCtx, idx int, res *core.CaseResult) {
 	}
 }
 
+// monitor 4: start-up waits for the first discovery round of every configured job
+func runC17WaitInit(w *core.WorkerCtx, k int, res *core.CaseResult) {
+	r := core.NewRng(w.Seed, 0xC17D, uint64(k))
+	jobs := []string{"ja", "jb", "jc"}
+	p := newPipeline(0)
+	defer p.close()
+	if err := p.cm.ReloadFromRaw([]byte(c17Config(jobs))); err != nil {
+		res.Inconcl = "config: " + err.Error()
+		return
+	}
+	// arrival time (ms) of each job's first round; one job may never report
+	arrive := map[string]int{}
+	for _, j := range jobs {
+		arrive[j] = r.PickI(0, 150, 400, 900, 1300, 1900)
+	}
+	never := ""
+	if k%4 == 3 {
+		never = jobs[r.Intn(3)]
+	}
+	order := append([]string{}, jobs...)
+	sort.Slice(order, func(a, b int) bool { return arrive[order[a]] < arrive[order[b]] })
+	ctxTimeout := 6 * time.Second
+	if never != "" {
+		ctxTimeout = 2500 * time.Millisecond
+	}
+	ctx, cancel := context.WithTimeout(context.Background(), ctxTimeout)
+	defer cancel()
+	t0 := time.Now()
+	var returned time.Time
+	done := make(chan struct{})
+	go func() {
+		_ = p.disc.WaitInit(ctx)
+		returned = time.Now()
+		close(done)
+	}()
+	seen := map[string]bool{}
+	var lastLo time.Time
+	ver := 0
+	for _, j := range order {
+		if j == never {
+			continue
+		}
+		if d := time.Duration(arrive[j])*time.Millisecond - time.Since(t0); d > 0 {
+			time.Sleep(d)
+		}
+		seen[j] = true
+		ver++
+		in := map[string][]*targetgroup.Group{}
+		for jj := range seen { // the discovery manager sends the sets of all jobs that reported so far
+			in[jj] = []*targetgroup.Group{c17Group(jj, ver, 1+r.Intn(3), 0)}
+		}
+		lastLo = time.Now()
+		if err := p.update(in); err != nil {
+			res.Violate("C17/step-did-not-complete", "first-round update: %v", err)
+			return
+		}
+	}
+	select {
+	case <-done:
+	case <-time.After(15 * time.Second):
+		res.Violate("C17/wait-init-hangs", "WaitInit did not return within 15 s (context timeout %v)", ctxTimeout)
+		return
+	}
+	res.Execs++
+	res.AddStat("wait_init_runs", 1)
+	if never != "" {
+		res.AddStat("wait_init_runs_with_silent_job", 1)
+		if returned.Sub(t0) < ctxTimeout {
+			res.Violate("C17/wait-init-returns-early", "job %s never had a discovery round, yet WaitInit returned after %d ms (before its %v timeout)", never, returned.Sub(t0).Milliseconds(), ctxTimeout)
+		}
+		return
+	}
+	if returned.Before(lastLo) {
+		res.Violate("C17/wait-init-returns-early", "WaitInit returned %d ms after start, before the last job's first round was sent at %d ms (arrivals %v)", returned.Sub(t0).Milliseconds(), lastLo.Sub(t0).Milliseconds(), arrive)
+	}
+	if returned.Sub(lastLo) > 4*time.Second {
+		res.Violate("C17/wait-init-late", "all jobs had reported at %d ms but WaitInit only returned at %d ms", lastLo.Sub(t0).Milliseconds(), returned.Sub(t0).Milliseconds())
+	}
+	if k < 1 {
+		res.Sample = map[string]interface{}{"monitor": "wait-init", "first_round_arrivals_ms": arrive, "returned_ms": returned.Sub(t0).Milliseconds()}
+	}
+}
+
+const c17WaitInitCases = 16
+
 func runC17(w *core.WorkerCtx, idx int) *core.CaseResult {
 	res := &core.CaseResult{Nontrivial: true}
+	if main := c17Main(w.Tier); idx >= main {
+		runC17WaitInit(w, idx-main, res)
+		res.Sig = fmt.Sprintf("waitinit-%d", idx-main)
+		res.Viol = dedupeByClass(res.Viol)
+		return res
+	}
 	if idx%2 == 0 && !w.Race {
 		runC17Sequential(w, idx, res)
 		res.Sig = fmt.Sprintf("seq-%d", idx)
@@ -548,6 +640,13 @@ func runC17(w *core.WorkerCtx, idx int) *core.CaseResult {
 	return res
 }
 
+func c17Main(tier string) int {
+	if tier == "thorough" {
+		return 20000
+	}
+	return 1000
+}
+
 func init() {
 	core.Register(&core.Prop{
 		ID:    "C17",
@@ -555,18 +654,13 @@ func init() {
 		Rule: "three monitors over the real TargetsDiscovery + Explore wired as in cmd/kvass/coordinator.go, driven through the channel the Prometheus discovery manager would feed: " +
 			"(1) even cases: a seed-determined sequence of 12-41 steps (full updates, partial first rounds, updates still carrying a just-removed job, reloads that add/remove/keep jobs over {ja,jb,jc}, targets that relabeling drops) with ActiveTargets / DropTargets / ActiveTargetsByHash / Explore.Get compared to a reference model after every step and all earlier snapshots re-checked for mutation; " +
 			"(2) odd cases: the same kind of steps from one writer with 4-8 concurrent reader goroutines; every update carries a unique version in its target ids, reads and writes are recorded with call/return times from one monotonic clock and the history (<= 60 operations) is checked with porcupine against a sequential map job->version in which a reload removes exactly the deleted jobs; torn reads (two versions of one job) are reported directly; " +
-			"(3) a -race pass over linearizability cases with attribution of reports to reader/writer pairs of the tables; non-trivial = every case; distinct = case index per monitor",
+			"(3) a -race pass over linearizability cases with attribution of reports to reader/writer pairs of the tables; (4) 16 start-up cases: WaitInit runs while the first rounds of three jobs arrive at scripted times (one job may stay silent): it must not return before every configured job had its first round (or before its context ends) and must return within bounded time afterwards; non-trivial = every case; distinct = case index per monitor",
 		Assumptions: []string{
 			"updates and reloads are issued sequentially by one writer (the property quantifies over sequences of updates and reloads interleaved with readers, not over update-reload races)",
 			"a write's interval is [send on the discovery channel, hand-over to the explorer]",
 			"porcupine timeout => inconclusive",
 		},
-		NumCases: func(tier string) int {
-			if tier == "thorough" {
-				return 20000
-			}
-			return 1000
-		},
+		NumCases:         func(tier string) int { return c17Main(tier) + c17WaitInitCases },
 		Run:              runC17,
 		MinNontrivial:    100,
 		CrashIsViolation: true,
